@@ -88,22 +88,121 @@ def context_layers(A, fac, update_call):
     return out
 
 
+def _dtype_raise_by_cases(A, fsv, par):
+    """(ok, why) for the ValueError about the value's type in Parameter.set_value, decided on the term of the condition under which it is
+    raised (the tests of the enclosing ifs, evaluated where they stand) for the five relevant cases; None if there is no such raise."""
+    from ..terms import assume as _assume, dag_nodes as _dag, normalise as _norm
+    raises = [n for n in A.typer.own_nodes(fsv) if isinstance(n, ast.Raise) and n.exc is not None and 'type' in src(n.exc) and 'dtype' in src(n.exc)]
+    if not raises:
+        return None
+    r = raises[0]
+    conds = []
+    child, p = r, getattr(r, '_parent', None)
+    while p is not None and not isinstance(p, (ast.FunctionDef, ast.AsyncFunctionDef)):
+        if isinstance(p, ast.If):
+            tst, pos = p.test, any(child is x for x in p.body)
+            while isinstance(tst, ast.UnaryOp) and isinstance(tst.op, ast.Not):
+                tst, pos = tst.operand, not pos
+            conds.append((tst, pos))
+        child, p = p, getattr(p, '_parent', None)
+    if not conds:
+        return None
+    at = A.sym.terms_at(fsv, ('inst', par), [c for c, _ in conds])
+    import itertools
+    alts = [at.get(id(c), []) for c, _ in conds]
+    if not all(alts) or len(list(itertools.product(*alts))) > 8:
+        return None
+    all_bad = []
+    for combo in itertools.product(*alts):
+        parts = [t_ if pos else ('not', t_) for t_, (_, pos) in zip(combo, conds)]
+        bad_ = _cases_for(_norm(('and', tuple(parts))) if len(parts) > 1 else _norm(parts[0]))
+        if bad_ is None:
+            return False, 'no isinstance(value, self.dtype) test guards the error'
+        all_bad += bad_
+    return (not all_bad), '; '.join(sorted(set(all_bad)))
+
+
+def _cases_for(cond):
+    from ..terms import assume as _assume, dag_nodes as _dag
+    dt = ('attr', ('self',), 'dtype')
+    vals = [x for x in _dag(cond) if x[0] == 'isinst' and x[2] == dt]
+    if not vals:
+        return None
+    v = vals[0][1]
+    def case(dtype_none, v_none, inst, is_path, is_str, truthy=True):
+        def d(c):
+            if c == ('cmp', 'Is', dt, ('lit', None)):
+                return dtype_none
+            if c == ('cmp', 'IsNot', dt, ('lit', None)):
+                return not dtype_none
+            if c == dt:
+                return not dtype_none
+            if c == ('cmp', 'Is', v, ('lit', None)):
+                return v_none
+            if c == ('cmp', 'IsNot', v, ('lit', None)):
+                return not v_none
+            if c == v or c == ('call', 'bool', (v,)):
+                return truthy and not v_none
+            if c == ('isinst', v, dt):
+                return inst
+            if c[0] == 'cmp' and c[1] in ('Is', 'Eq') and dt in c[2:] and any(str(z).endswith("Path')") or z == ('global', 'pathlib.Path') or z == ('global', 'Path') for z in c[2:]):
+                return is_path
+            if c[0] == 'isinst' and c[1] == v and c[2] in (('global', 'str'), ('builtin', 'str')):
+                return is_str
+            return None
+        from ..terms import truth_under
+        return truth_under(cond, d)
+    T, F = True, False
+    want = [('a str for another dtype', case(False, False, False, False, True), T), ('a non-str for dtype Path', case(False, False, False, True, False), T),
+            ('a falsy value of the wrong type', case(False, False, False, False, False, truthy=False), T),
+            ('None', case(False, True, False, False, False), F), ('a value of the declared type', case(False, False, True, False, False), F),
+            ('a str for dtype Path', case(False, False, False, True, True), F), ('no dtype declared', case(True, False, False, False, False), F)]
+    return [f'{name}: {"does not raise" if exp == T else "raises"}' for name, got, exp in want if got != exp]
+
+
+class _Upd:
+    """One update of the config's data by context values in Config.apply_context - written there, or in a private helper it calls."""
+    def __init__(self, site, call, arg, copied, owner):
+        self.site = site        # node inside apply_context (the update call, or the call of the helper): control-flow position
+        self.call = call        # the `.update(...)` call itself
+        self.arg = arg          # what is copied in, in apply_context's terms
+        self.copied = copied    # the argument passes deepcopy before it is handed to update
+        self.owner = owner
+
+
+def context_update_sites(A, fac):
+    out = []
+    for n, o, sites in A.nodes_with_sites(fac):
+        if not (isinstance(n, ast.Call) and isinstance(n.func, ast.Attribute) and n.func.attr == 'update' and n.args):
+            continue
+        from .common import resolve_expr
+        base = resolve_expr(A, fac, n.func.value, o, sites)
+        if src(base) != 'self._data':
+            continue
+        arg = subst_single_assign(A, o, n.args[0])
+        copied = isinstance(arg, ast.Call) and src(arg.func).split('.')[-1] == 'deepcopy'
+        inner = arg.args[0] if copied and arg.args else arg
+        inner = resolve_expr(A, fac, inner, o, sites) if isinstance(inner, ast.Name) else inner
+        out.append(_Upd(sites[0] if sites else n, n, inner, copied, o))
+    return out
+
+
 def check_context_isolation(A, R: Report, rid: str):
     cfgc = A.cls('Config')
     ctxc = A.cls('Context')
     fac = cfgc.lookup('apply_context')
     fmc = ctxc.lookup('merge_contexts')
-    updates = [n for n in A.typer.own_nodes(fac) if isinstance(n, ast.Call) and isinstance(n.func, ast.Attribute) and n.func.attr == 'update' and src(n.func.value) == 'self._data']
+    upd_sites = context_update_sites(A, fac)
     loops = [n for n in A.typer.own_nodes(fmc) if isinstance(n, ast.For) and src(n.iter).startswith(fmc.params[0])]
-    for u in updates:
-        arg = subst_single_assign(A, fac, u.args[0]) if u.args else None
-        ok = isinstance(arg, ast.Call) and src(arg.func).split('.')[-1] == 'deepcopy'
-        lay = context_layers(A, fac, u)
+    for us in upd_sites:
+        u, arg = us.call, us.arg
+        ok = us.copied
+        lay = context_layers(A, fac, u) if us.owner is fac else None
         if lay is not None:
             raw = [pretty(t)[:80] for br in lay for kind, t in br if kind != 'copied' and not (t[0] == 'call' and t[1].endswith('deepcopy'))]
             ok = ok and not raw
-        R.check(ok, rid, f'Config.apply_context: `{src(u)[:60]}`', key_of('no-deepcopy', src(arg) if arg is not None else None), 'deep-copied',
-                'context values are shared by reference with the config: mutating one config (object instantiation, placeholder substitution) changes the context and every other config built from it', where=where(fac, u))
+        R.check(ok, rid, f'Config.apply_context: `{src(us.site)[:60]}`', key_of('no-deepcopy', src(arg) if arg is not None and not ok else (src(us.call.args[0]) if us.owner is fac else 'copied')), 'deep-copied',
+                'context values are shared by reference with the config: mutating one config (object instantiation, placeholder substitution) changes the context and every other config built from it', where=where(fac, us.site))
     # accumulators of merge_contexts
     acc = {}
     for n in A.typer.own_nodes(fmc):
@@ -333,11 +432,12 @@ def run(A, R: Report, thorough: bool):
     R.rule('R09.1', 'apply_context applies global context data before the namespace entry; merge_contexts lets later contexts overwrite earlier ones', floor=2)
     fac = cfgc.lookup('apply_context')
     cfg = A.cfg(fac)
-    updates = [n for n in A.typer.own_nodes(fac) if isinstance(n, ast.Call) and isinstance(n.func, ast.Attribute) and n.func.attr == 'update' and src(n.func.value) == 'self._data']
-    R.require(len(updates) >= 1, 'anchor: no self._data.update(...) call in Config.apply_context')
+    upd1 = context_update_sites(A, fac)
+    updates = [us.site for us in upd1]
+    R.require(len(updates) >= 1, 'anchor: no update of self._data in Config.apply_context (directly or through a private helper)')
     glob = [u for u in updates if 'for_namespaces' not in src(u) and not any(isinstance(p, ast.For) for p in _parents(u))]
     nsup = [u for u in updates if any(isinstance(p, ast.For) and 'for_namespaces' in src(p.iter) for p in _parents(u))]
-    lay = [context_layers(A, fac, u) for u in updates]
+    lay = [context_layers(A, fac, us.call) if us.owner is fac else None for us in upd1]
     if len(updates) == 1 and lay[0] is not None:
         # one update with a prepared overlay: the overlay's own layers carry the order
         kinds = [k for br in lay[0] for k in [[kind for kind, _ in br]]]
@@ -373,7 +473,7 @@ def run(A, R: Report, thorough: bool):
     # ---- R09.3
     R.rule('R09.3', 'a per-namespace context entry applies to exactly the config\'s namespace (== on whole namespace paths)', floor=1)
     cfg3 = A.cfg(fac)
-    ns_updates = [u for u in [n for n in inl(A, fac) if isinstance(n, ast.Call) and isinstance(n.func, ast.Attribute) and n.func.attr == 'update' and src(n.func.value) == 'self._data']
+    ns_updates = [u for u in [us.site for us in context_update_sites(A, fac)]
                   if any(isinstance(p, ast.For) and 'for_namespaces' in src(p.iter) for p in _parents(u))]
     if not ns_updates:
         R.undecided('R09.3', 'Config.apply_context', 'per-namespace update not recognised', where=where(fac))
@@ -453,7 +553,17 @@ def run(A, R: Report, thorough: bool):
            any(('name_in_config' in t_ and ' in ' in t_ and ' not in ' not in t_ and not pol) or ('name_in_config' in t_ and ' not in ' in t_ and pol) or ('is None' in t_ and pol) for t_, pol in facts_text(A, fsv, cfg, r.id))]
     typ = [r for r in raises if any('isinstance' in t_ and 'dtype' in t_ and not pol for t_, pol in facts_text(A, fsv, cfg, r.id))]
     R.check(bool(req), 'R09.5', 'Parameter.set_value: required', key_of('required-raise'), 'raises when absent and required', 'a required parameter that is missing from the config no longer raises', where=where(fsv))
-    R.check(bool(typ), 'R09.5', 'Parameter.set_value: dtype', key_of('dtype-raise'), 'raises on wrong type', 'a value of the wrong type no longer raises', where=where(fsv))
+    if not typ:
+        # the check may be spelled through locals assigned on several paths: decide the raise condition as a term, by cases
+        typ_by_term = _dtype_raise_by_cases(A, fsv, par)
+        if typ_by_term is not None:
+            ok_cases, why_cases = typ_by_term
+            R.check(ok_cases, 'R09.5', 'Parameter.set_value: dtype', key_of('dtype-raise-cases', why_cases), 'raises exactly for a non-None value of the wrong type (a str is accepted for Path)',
+                    f'the type check does not behave as required: {why_cases}', where=where(fsv))
+            typ = None
+    if typ is not None:
+        R.check(bool(typ), 'R09.5', 'Parameter.set_value: dtype', key_of('dtype-raise'), 'raises on wrong type', 'a value of the wrong type no longer raises', where=where(fsv))
+    typ = typ or []
     # the str-for-Path exception is a conjunction: a str for another dtype, and a non-str for Path, still raise
     allnodes9 = list(cfg.nodes)
 
@@ -469,6 +579,12 @@ def run(A, R: Report, thorough: bool):
         R.check(str_other is not None and path_nonstr is not None, 'R09.5', 'Parameter.set_value: str-for-Path exception', key_of('path-str', str_other is not None, path_nonstr is not None),
                 'only a str given for a Path parameter is exempt from the type check',
                 'the exemption "a str is accepted for dtype Path" is no longer a conjunction: ' + ('a str is accepted for every dtype' if str_other is None else 'any value is accepted for dtype Path'), where=where(fsv))
+    # only None is exempt from the type check - not every falsy value (0, '', [], False of the wrong type must still be rejected)
+    for r in typ:
+        truthy = [t_ for t_, pol in facts_text(A, fsv, cfg, r.id) if pol and t_ in ('value', 'bool(value)')]
+        ident = [t_ for t_, pol in facts_text(A, fsv, cfg, r.id) if ('is not None' in t_ and pol) or ('is None' in t_ and not pol)]
+        R.check(not truthy or bool(ident) and False, 'R09.5', 'Parameter.set_value: dtype check applies to every value but None', key_of('dtype-falsy', sorted(truthy)), 'exempt: None only',
+                f'the type check runs only when `{truthy[0] if truthy else ""}` is truthy: 0, 0.0, False, \'\', [] or {{}} of the wrong type reach the task without an error', where=where(fsv, r.ast))
     stores = [v for c, v in A.typer.attr_store_exprs.get((par.qualname, '_value'), []) if c.func is fsv]
     R.require(stores, 'anchor: store to _value in Parameter.set_value not found')
     for v in stores:
@@ -508,7 +624,8 @@ def run(A, R: Report, thorough: bool):
         for r in rs:
             facts = [(a, pol) for a, pol in cfg.facts_at(r.id)]
             texts = facts_text(A, freg, cfg, r.id)
-            present = any(' in tasks' in t and ' not in ' not in t and pol for t, pol in texts) or any(' not in tasks' in t and not pol for t, pol in texts)
+            present = any(' in tasks' in t and ' not in ' not in t and pol for t, pol in texts) or any(' not in tasks' in t and not pol for t, pol in texts) or \
+                any('tasks.get(' in t and ((t.endswith(' is not None') and pol) or (t.endswith(' is None') and not pol)) for t, pol in texts)
             rel = [(t, pol, a) for (t, pol), (a, _) in zip(texts, facts) if isinstance(a, ast.Compare) and len(a.ops) == 1 and 'get_config()' in t]
             ident = any(((isinstance(a.ops[0], ast.IsNot) and pol) or (isinstance(a.ops[0], ast.Is) and not pol)) and t.count('get_config()') == 2 and not any(c_ in t for c_ in ('str(', "f'", 'f"', 'repr(', '.name', '.fullname'))
                         for t, pol, a in rel)
@@ -565,8 +682,8 @@ def run(A, R: Report, thorough: bool):
     cfgi = A.cfg(finit9)
     part_from_path = [n for n in inl(A, finit9) if isinstance(n, ast.Assign) and any(src(x) == 'self._part' for t_ in n.targets for x in ([t_] + (list(t_.elts) if isinstance(t_, (ast.Tuple, ast.List)) else [])))
                       and "'#'" in src(n.value)]
-    for n in part_from_path:
-        guarded = all(any(("'#' in " in t_ and pol) or ("'#' not in " in t_ and not pol) for t_, pol in facts_text(A, finit9, cfgi, cn.id)) for cn in cfg_nodes_for(cfgi, n))
+    from .common import part_stores
+    for n, guarded in part_stores(A)[1]:
         R.check(guarded, 'R09.8', f'Config.__init__: `{src(n)[:50]}`', key_of('part-from-path', guarded), 'the part is taken from the path only when the path contains `#`',
                 f'`{src(n)[:70]}` runs for every file path: a part given explicitly (part=...) is overwritten when the path has no `#`, so the config silently falls back to the main part', where=where(finit9, n))
     fgp = cfgc.lookup('_get_part')
